@@ -30,19 +30,22 @@ META = dict(
           "history stays inside that store's preconditions (refinement by invariant, unbounded); (3) every handle the model "
           "calls usable designates a live heap object and an existing node (invariant over all histories), and the handle "
           "returned by occaCreateJson stays usable across every history that neither frees its object nor assigns the "
-          "variable. The model is tied "
+          "variable; (4) a bool/signed/float scalar added to an occaScope is declared with its C type in the inlined "
+          "kernel and read back unchanged. The model is tied "
           "to the C++ by running the extracted model and the real library on the same cases under ASan/UBSan/LSan.",
     note="Trusted: Coq kernel; the hand model (tie is differential: seeded histories + an enumerated batch of all extreme "
          "values per kind); extraction; drivers; float conversions between different kinds are only tied, not proved "
          "(interface with the hypothesis f32(f64(x)) = x for the one theorem that needs it). Handle validity is partial: "
          "vector reallocation / map node reuse are flagged conservatively (every structural change of a container makes the "
          "handles strictly below it unusable). Paths ('/' in keys), parse/dump and memory/device handles are outside (C25/"
-         "C24/C01). Needs fixes/C29-1.patch and fixes/C29-2.patch applied to /repo (bool cases).",
+         "C24/C01). Scope values (occaScopeAdd -> inlined kernel): declared C type and value proved for bool/signed/float "
+         "kinds; unsigned kinds are the known finding scope_unsigned (declared with the signed type name).",
     technique="Coq round-trip theorems over Z/bit patterns + refinement proof (invariant over histories) + "
               "extracted-model/implementation differential correspondence under sanitizers",
     design_ref="DESIGN.md section 5, C29")
 
 KINDS = ["b", "i8", "u8", "i16", "u16", "i32", "u32", "i64", "u64", "f32", "f64"]
+UNSIGNED = ("u8", "u16", "u32", "u64")
 INTK = {"b": (0, 1), "i8": (-2**7, 2**7 - 1), "u8": (0, 2**8 - 1), "i16": (-2**15, 2**15 - 1), "u16": (0, 2**16 - 1),
         "i32": (-2**31, 2**31 - 1), "u32": (0, 2**32 - 1), "i64": (-2**63, 2**63 - 1), "u64": (0, 2**64 - 1)}
 CT = {"c": "i8", "uc": "u8", "s": "i16", "us": "u16", "i": "i32", "ui": "u32", "l": "i64", "ul": "u64"}
@@ -161,11 +164,14 @@ def gen_scalar_case(rng):
             k2 = rng.choice(KINDS) if rng.random() < 0.6 else k
             if conv_ok(k, v, k2):
                 toks.append("%s,%s,%s" % (rng.choice("QT"), k2, l))
-        elif x < 0.85:
+        elif x < 0.78:
             toks.append("K," + l)
+        elif x < 0.88:
+            if k not in UNSIGNED:      # unsigned scope values are a known finding: they get cases of their own
+                toks.append("SD%s,%s" % (rng.choice("ca"), l))
         else:
             other = rng.choice(["null", "undef", "dflt", "p0", "p1", "s:" + rnd_bytes(rng), "st:" + rnd_bytes(rng, 0, 9)])
-            toks.append("%s,%s" % (rng.choice("CKP"), other))
+            toks.append("%s,%s" % (rng.choice(["C", "K", "P", "SDc", "SDa"]), other))
     return " ".join(toks)
 
 
@@ -176,7 +182,8 @@ def extreme_cases():
         for v in extremes(k):
             l = lit_str(k, v)
             acc = "gb,%d" if k == "b" else "gn,%d," + k
-            t = ["C," + l, "P," + l, "Q,%s,%s" % (k, l), "T,%s,%s" % (k, l), "K," + l,
+            t = ["C," + l, "P," + l, "Q,%s,%s" % (k, l), "T,%s,%s" % (k, l), "K," + l] + \
+                ([] if k in UNSIGNED else ["SDc," + l, "SDa," + l]) + [
                  "n,0", "os,0,6b,%s" % l, "og,0,6b,4,undef", acc % 4, "ty,4",
                  "n,1", "ap,1,%s" % l, "ag,1,0,5", acc % 5, "ai,1,0,%s" % l, "ag,1,0,6", acc % 6, "ag,1,1,7", acc % 7,
                  "os,0,6b,h6", "og,0,6b,8,undef", acc % 8, "og,0,7a,9,%s" % l, "v,9"]
@@ -477,6 +484,38 @@ def gen_kr_case(rng):
     return " ".join(toks)
 
 
+SHAPE_S = ["b", "i8", "i16", "i32", "i64", "f32", "f64"]
+SHAPE_U = ["u8", "u16", "u32", "u64"]
+
+
+def gen_scope_case(rng):
+    """An inlined (JIT) kernel reading scope values; bool/signed/float kinds only."""
+    toks = []
+    for _ in range(rng.randint(1, 3)):
+        toks.append("SC%s,%s" % (rng.choice("ca"), ",".join(lit_str(k, rnd_value(rng, k)) for k in SHAPE_S)))
+    return " ".join(toks)
+
+
+def scope_extreme_cases():
+    ex = {k: extremes(k) for k in SHAPE_S}
+    n = max(len(v) for v in ex.values())
+    return ["SC%s,%s" % ("ca"[i % 2], ",".join(lit_str(k, ex[k][i % len(ex[k])]) for k in SHAPE_S)) for i in range(n)]
+
+
+def scope_unsigned_cases(rng):
+    """Known finding scope_unsigned: unsigned scope values are declared with the signed type.  Kept in cases of their
+    own (nothing but unsigned scope operations) so that the finding cannot hide a different failure."""
+    cases = []
+    for k in SHAPE_U:
+        vs = [0, 1, INTK[k][1], INTK[k][1] // 2 + 1]
+        cases.append(" ".join("SD%s,%s" % ("ca"[i % 2], lit_str(k, v)) for i, v in enumerate(vs)))
+    runs = []
+    for i in range(3):
+        vals = [rnd_value(rng, k) for k in SHAPE_U] if i else [INTK[k][1] for k in SHAPE_U]
+        runs.append("SC%s,%s" % ("ca"[i % 2], ",".join(lit_str(k, v) for k, v in zip(SHAPE_U, vals))))
+    return cases, runs
+
+
 def kr_extreme_cases():
     cases = []
     ks = ["i8", "u8", "i16", "u16", "i32", "u32", "i64", "u64", "f32", "f64"]
@@ -530,18 +569,28 @@ class Diff(C.Differential):
         return any(b != "*" and a != b for a, b in zip(i, s))
 
 
+def sig_scope_unsigned(case):
+    """The case consists of nothing but scope operations that carry an unsigned scalar."""
+    toks = case.split()
+    return bool(toks) and all(t[:2] in ("SD", "SC") and re.search(r",u(8|16|32|64):", t) for t in toks)
+
+
 def limit_failures(D, cases, I, R, S, keep=5):
     """When many cases fail (a broken conversion fails hundreds of them), hand only the shortest few to the
-    shrinker/judge; the others are counted, not shrunk one by one."""
+    shrinker/judge; the others are counted, not shrunk one by one.  Cases that match a known-finding signature are
+    budgeted separately, so that they never displace a different failure."""
     fails = [i for i in range(len(cases)) if D.fails_spec(I[i], S[i])]
-    if len(fails) <= keep:
+    known = [i for i in fails if any(f(cases[i]) for f in SIGNATURES.values())]
+    other = [i for i in fails if i not in set(known)]
+    if len(other) <= keep and len(known) <= 3:
         return cases, I, R, S, len(fails)
-    chosen = set(sorted(fails, key=lambda i: (len(cases[i].split()), len(cases[i])))[:keep])
+    bylen = lambda i: (len(cases[i].split()), len(cases[i]))
+    chosen = set(sorted(other, key=bylen)[:keep]) | set(sorted(known, key=bylen)[:3])
     idx = [i for i in range(len(cases)) if i in chosen or i not in set(fails)]
     return [cases[i] for i in idx], [I[i] for i in idx], [R[i] for i in idx], [S[i] for i in idx], len(fails)
 
 
-SIGNATURES = {}
+SIGNATURES = {"scope_unsigned": sig_scope_unsigned}
 
 
 def extra_known():
@@ -585,11 +634,15 @@ def run(run, tier, seed, replay_case=None):
     corpus = C.load_corpus(PROP)
     quick = tier == "quick"
     n_scalar, n_json, n_kr = (600, 1800, 25) if quick else (12000, 50000, 300)
-    conv = [c for c in corpus if "KR" not in c] + extreme_cases() + [gen_scalar_case(rng) for _ in range(n_scalar)]
+    conv = [c for c in corpus if "KR" not in c and "SC" not in c] + extreme_cases() + [gen_scalar_case(rng) for _ in range(n_scalar)]
     hist = [gen_json_case(rng, tier) for _ in range(n_json)]
-    kr = [c for c in corpus if "KR" in c] + kr_extreme_cases() + [gen_kr_case(rng) for _ in range(n_kr)]
+    jit = lambda c: "KR" in c or "SC" in c            # cases that build and run a kernel: plain flavour, one process
+    ku_decl, ku_run = scope_unsigned_cases(rng)
+    conv = conv + ku_decl
+    kr = ([c for c in corpus if jit(c)] + kr_extreme_cases() + scope_extreme_cases() + ku_run +
+          [gen_kr_case(rng) for _ in range(n_kr)] + [gen_scope_case(rng) for _ in range(n_kr)])
     if replay_case is not None:
-        conv, hist, kr = ([], [], [replay_case]) if "KR" in replay_case else ([replay_case], [], [])
+        conv, hist, kr = ([], [], [replay_case]) if jit(replay_case) else ([replay_case], [], [])
     conv = [c for c in conv if c.strip()]
     hist = [c for c in hist if c.strip()]
     cases, dropped = model_filter(model, conv + hist)
@@ -630,6 +683,17 @@ def run(run, tier, seed, replay_case=None):
                 shutil.rmtree(cache, ignore_errors=True)
     finally:
         C.load_known_findings = orig_known
+
+    # cases excused by a known finding still have to agree with the model (the judge compares model and
+    # implementation only on cases that meet the specification)
+    kf_breaks = [(c, i, r) for c, i, r in zip(cases + kr, list(I) + list(Ik), list(R) + list(Rk))
+                 if any(f(c) for f in SIGNATURES.values()) and i != r]
+    if kf_breaks and not run.violations:
+        c, i, r = kf_breaks[0]
+        run.violation("correspondence break on a known-finding case",
+                      "the model no longer describes the implementation on a case excused by a known finding (%d such cases)\n"
+                      "first disagreeing case: %s\nimplementation: %s\nmodel: %s\n" % (len(kf_breaks), c, i, r), no_input=True)
+    corr += len(kf_breaks)
 
     allc, allS = cases + kr, list(S) + list(Sk)
     allI, allR = list(I) + list(Ik), list(R) + list(Rk)
